@@ -10,6 +10,12 @@ def _f(mod, fn):
 
 
 PROPS = {
+    'C16': {
+        'lean': 'C16',
+        'corr': [_f('comp_defer', 'corr')],
+        'oracles': [_f('comp_defer', 'oracle')],
+        'modelled': ['download.DeferQueue (heap modelled as a list sorted by (offset, length))'],
+    },
     'C12': {
         'lean': 'C12',
         'corr': [_f('comp_sema', 'corr')],
